@@ -1,9 +1,13 @@
-(* Extraction of the C06 executable model (model/Ntt.v instantiated for both fields) to OCaml. *)
+(* Extraction of the C06 executable model (model/Ntt.v instantiated for both fields) to OCaml.
+   Besides the directives of ExtrOcamlZBigInt, `Z.pow` is mapped to zarith's power function: the
+   regenerated word operations evaluate `2 ^ 64` / `2 ^ 128` on every call, which costs 30 us per field
+   multiplication with the extracted square-and-multiply (0.5 us with the directive). *)
 From Coq Require Import Extraction ExtrOcamlBasic ExtrOcamlZBigInt ZArith List.
 From TF Require Import Word BFieldGen BField XField FieldOps Ntt.
 Extraction Language OCaml.
+Extract Constant Z.pow => "Big_int_Z.(fun x y -> if sign_big_int y < 0 then zero_big_int else power_big_int_positive_big_int x y)".
 Extraction "../ocaml/gen_c06/model.ml"
-  P PRIMITIVE_ROOTS bfe_new bfe_value
+  P PRIMITIVE_ROOTS bfe_new bfe_value bfe_mul bfe_add bfe_sub
   ntt_b intt_b ntt_noswap_b intt_noswap_b unscale_b
   ntt_x intt_x ntt_noswap_x intt_noswap_x
   bitreverse_order bitreverse logn_of root_b root_x.
